@@ -3,6 +3,7 @@ package tr
 
 import (
 	"bufio"
+	"bytes"
 	"encoding/json"
 	"fmt"
 	"os"
@@ -48,11 +49,49 @@ func (w *Writer) NextTrace() {
 func (w *Writer) Shard() int { return w.cur }
 
 // Emit writes one event to the current shard.
-func (w *Writer) Emit(ev map[string]any) {
+// marshal renders an event; a nil slice or map somewhere inside (JSON null, which the TLA+ side cannot read) becomes an
+// empty array: an executor must be able to report a degenerate observation instead of breaking the trace.
+func marshal(ev map[string]any) []byte {
 	b, err := json.Marshal(ev)
 	if err != nil {
 		panic(err)
 	}
+	if !bytes.Contains(b, []byte("null")) {
+		return b
+	}
+	var v any
+	dec := json.NewDecoder(bytes.NewReader(b))
+	dec.UseNumber()
+	if dec.Decode(&v) != nil {
+		return b
+	}
+	var fix func(x any) any
+	fix = func(x any) any {
+		switch t := x.(type) {
+		case nil:
+			return []any{}
+		case map[string]any:
+			for k, e := range t {
+				t[k] = fix(e)
+			}
+			return t
+		case []any:
+			for i, e := range t {
+				t[i] = fix(e)
+			}
+			return t
+		}
+		return x
+	}
+	b2, err := json.Marshal(fix(v))
+	if err != nil {
+		return b
+	}
+	return b2
+}
+
+func (w *Writer) Emit(ev map[string]any) {
+	b := marshal(ev)
 	w.mu.Lock()
 	defer w.mu.Unlock()
 	w.bufs[w.cur].Write(b)
@@ -65,10 +104,7 @@ func (w *Writer) Emit(ev map[string]any) {
 
 // EmitTo writes one event to a specific shard.
 func (w *Writer) EmitTo(shard int, ev map[string]any) {
-	b, err := json.Marshal(ev)
-	if err != nil {
-		panic(err)
-	}
+	b := marshal(ev)
 	w.mu.Lock()
 	defer w.mu.Unlock()
 	w.bufs[shard].Write(b)
